@@ -159,7 +159,7 @@ func (c *Canonicalizer) CanonicalizeFunction(fn *ssa.Function) string {
 	}
 
 	c.writeFunctionSignature(fn)
-	c.reconstructBlockInstructions(fn)
+	c.reconstructBlockInstructions(sortedBlocks)
 	for _, block := range sortedBlocks {
 		if _, exists := c.blockMap[block]; exists {
 			c.processBlock(block)
@@ -218,7 +218,9 @@ func (c *Canonicalizer) normalizeInductionVariablesRecursive(loops []*loop.Loop,
 	}
 }
 
-func (c *Canonicalizer) reconstructBlockInstructions(fn *ssa.Function) {
+// blocks is the canonical block order: instructions moved into another block (hoisted calls) are
+// collected in that order, not in source order, so exchanging the arms of a branch does not reorder them.
+func (c *Canonicalizer) reconstructBlockInstructions(blocks []*ssa.BasicBlock) {
 	c.effectiveInstrs = make(map[*ssa.BasicBlock][]ssa.Instruction)
 
 	// Separate instruction lists to enforce safe ordering:
@@ -233,7 +235,7 @@ func (c *Canonicalizer) reconstructBlockInstructions(fn *ssa.Function) {
 	tails := make(map[*ssa.BasicBlock][]ssa.Instruction)
 	terminators := make(map[*ssa.BasicBlock]ssa.Instruction)
 
-	for _, b := range fn.Blocks {
+	for _, b := range blocks {
 		for _, instr := range b.Instrs {
 			if c.VirtualizedInstrs[instr] {
 				continue
@@ -267,7 +269,7 @@ func (c *Canonicalizer) reconstructBlockInstructions(fn *ssa.Function) {
 		}
 	}
 
-	for _, b := range fn.Blocks {
+	for _, b := range blocks {
 		var combined []ssa.Instruction
 		combined = append(combined, phis[b]...)
 		combined = append(combined, heads[b]...)
